@@ -32,6 +32,18 @@ type fakeTC struct {
 	pubServers [][]string // addresses of the servers named in each publish
 	unpub      []string
 	seenNodes  []string // address of the node each call was directed at
+	// removalGate, when set, is called at the start of every Unpublish/Release RPC (outside the
+	// fake's own lock): a harness holds the removal there while something else happens
+	removalGate func()
+}
+
+func (f *fakeTC) gateRemoval() {
+	f.mu.Lock()
+	g := f.removalGate
+	f.mu.Unlock()
+	if g != nil {
+		g()
+	}
 }
 
 func (f *fakeTC) note(ctx context.Context) {
@@ -81,6 +93,7 @@ func (f *fakeTC) PublishTunnel(ctx context.Context, req *protocol.PublishTunnelR
 }
 
 func (f *fakeTC) UnpublishTunnel(ctx context.Context, req *protocol.UnpublishTunnelRequest) (*protocol.UnpublishTunnelResponse, error) {
+	f.gateRemoval()
 	f.mu.Lock()
 	defer f.mu.Unlock()
 	f.unpub = append(f.unpub, req.GetHostname())
@@ -88,6 +101,7 @@ func (f *fakeTC) UnpublishTunnel(ctx context.Context, req *protocol.UnpublishTun
 }
 
 func (f *fakeTC) ReleaseTunnel(ctx context.Context, req *protocol.ReleaseTunnelRequest) (*protocol.ReleaseTunnelResponse, error) {
+	f.gateRemoval()
 	f.mu.Lock()
 	defer f.mu.Unlock()
 	f.unpub = append(f.unpub, req.GetHostname())
